@@ -1,4 +1,5 @@
-def dogDepth (sigma_low : Rat) (scale : Rat) : Rat × Int :=
+def dogDepth (sigma_low : Rat) (sigma_high : Rat) (scale : Rat) : Rat × Rat × Int :=
   let sigma1_px : Rat := (sigma_low / scale)
-  let depth : Int := (Py.ceil (sigma1_px * (2 : Rat)))
-  (sigma1_px, depth)
+  let sigma2_px : Rat := (sigma_high / scale)
+  let depth : Int := (((Py.ceil (sigma2_px * (4 : Rat))) + (Py.ceil sigma1_px)) + (1 : Int))
+  (sigma1_px, sigma2_px, depth)
